@@ -248,8 +248,14 @@ func validPortable(c *Ctx) ([]byte, *ISet, *specInfo) {
 	o := GenOpts{MaxChunks: 5, HeavyP: 0.25}
 	m, _ := genSet(r, o)
 	if r.Chance(0.12) {
-		// 1..150 small chunks
+		// 1..150 small chunks (rarely 1000..1500 or a multiple of 1024)
 		n := 1 + r.Intn(150)
+		switch r.Intn(15) {
+		case 0:
+			n = 1000 + r.Intn(500)
+		case 1:
+			n = 1024 * (1 + r.Intn(2))
+		}
 		m = NewISet()
 		base := r.Range(0, 65535-uint64(n))
 		for k := uint64(0); k < uint64(n); k++ {
